@@ -424,6 +424,7 @@ RunLoop:
 			case code.OpCall:
 				pc++
 				c.pc = pc
+				c.depth -= int32(len(c.acc)) // the values received are not on this "stack" any more
 				c.acc = nil
 				c.running = false
 				contReg := opcode.GetA()
